@@ -12,6 +12,30 @@ VERIF = pathlib.Path(__file__).resolve().parent.parent
 REPO = pathlib.Path(os.environ.get("SPVERIF_REPO", "/repo"))
 
 
+# source files (prefixes under spacepackets/) each check reads; used by --related to skip checks a change cannot influence
+DEPENDS = {
+    "C01": ("ccsds/spacepacket.py",), "C02": ("ecss/tc.py", "ecss/__init__.py", "ccsds/spacepacket.py", "crc.py", "util.py", "exceptions.py"),
+    "C03": ("ecss/tm.py", "ecss/pus_17_test.py", "ecss/__init__.py", "ccsds/", "crc.py", "util.py", "exceptions.py"),
+    "C04": ("ecss/", "cfdp/", "ccsds/", "crc.py", "util.py", "exceptions.py"), "C05": ("cfdp/pdu/header.py", "cfdp/conf.py", "cfdp/defs.py", "util.py", "exceptions.py"),
+    "C06": ("cfdp/", "util.py", "crc.py", "exceptions.py"), "C07": ("cfdp/", "util.py", "crc.py", "exceptions.py"),
+    "C08": ("cfdp/tlv/", "cfdp/lv.py", "cfdp/defs.py", "cfdp/exceptions.py", "util.py", "exceptions.py"),
+    "C09": ("",), "C10": ("",), "C11": ("ecss/tc.py", "ecss/tm.py", "cfdp/", "uslp/", "ccsds/", "util.py", "crc.py", "exceptions.py"),
+    "C12": ("cfdp/", "util.py", "crc.py", "exceptions.py"), "C13": ("ccsds/spacepacket.py",), "C14": ("ccsds/time/", "exceptions.py"),
+    "C15": ("ecss/", "ccsds/", "util.py", "crc.py", "exceptions.py"), "C16": ("ecss/", "ccsds/spacepacket.py", "util.py"), "C17": ("uslp/", "exceptions.py"),
+    "C18": ("cfdp/", "util.py", "exceptions.py"), "C19": ("seqcount.py",), "C20": ("util.py",),
+}
+
+
+def touched(seed_dir):
+    out = set()
+    for l in (seed_dir / "patch.diff").read_text().splitlines():
+        if l.startswith("+++ "):
+            p = l[4:].split("\t")[0].strip()
+            if "spacepackets/" in p:
+                out.add(p.split("spacepackets/", 1)[1])
+    return out
+
+
 def claimed():
     m = json.loads((VERIF / "MANIFEST.json").read_text())
     return [c["property_id"] for c in m["checks"]]
@@ -44,6 +68,7 @@ def main():
     ap.add_argument("--tier", default="quick")
     ap.add_argument("-v", action="store_true")
     ap.add_argument("--jobs", type=int, default=16, help="seeds analysed concurrently")
+    ap.add_argument("--related", action="store_true", help="with --all-props: only the checks that read a file the change touches")
     ap.add_argument("--dir", default="seeded", help="sub-directory of /verif holding the changes (seeded | refactors)")
     ap.add_argument("--expect-clean", action="store_true", help="the changes preserve behaviour: every check must exit 0 (reports false alarms)")
     a = ap.parse_args()
@@ -57,6 +82,9 @@ def main():
         own = s.name.split("-")[0]
         if a.all_props or a.props:
             props = cl
+            if a.related:
+                t = touched(s)
+                props = [p for p in cl if any(f.startswith(pre) for f in t for pre in DEPENDS.get(p, ("",)))]
         else:
             props = [own] if own in cl else []
         if a.props is None and not a.all_props and not props:
